@@ -5,10 +5,17 @@ sys.path.insert(0, os.path.dirname(os.path.abspath(__file__)))
 from ltv import common as C
 
 def main():
-    ok, out = C.lean_build(["LtVerif", "ltmodel"])
-    print(out[-3000:])
-    if not ok:
-        return 1
+    import glob
+    props = sorted(os.path.basename(f)[:-5] for f in glob.glob(os.path.join(C.LEAN, "LtVerif", "Props", "C*.lean")))
+    bad = 0
+    for pid in props:
+        ok, out = C.lean_build(["LtVerif.Props." + pid] + C.model_targets(pid))
+        print(pid, "lean build", "ok" if ok else "FAILED")
+        if not ok:
+            print(out[-2000:])
+            bad += 1
+    if bad:
+        print("setup: %d properties do not build (their checks will report it)" % bad)
     lib, err = C.build_lib()
     if lib is None:
         print(err[-3000:])
